@@ -21,8 +21,8 @@ MANIFEST = {
     'technique': 'deductive: VCs from the real AST of trajectory_to_volume and the Volume voxel methods, z3 (NIRA); finite-scope counter-models '
                  'replayed natively; exhaustive voxel round trip and random-trajectory oracle as bounded stand-ins',
 }
-UNITS = ['unit_volume', 'unit_voxel_size', 'unit_roundtrip', 'unit_roundtrip_fp', 'unit_partition']
-BOUNDED = ['bounded_roundtrip', 'bounded_volume', 'bounded_purity']
+UNITS = ['unit_volume', 'unit_voxel_size', 'unit_roundtrip', 'unit_roundtrip_fp', 'unit_partition', 'unit_plumbing']
+BOUNDED = ['bounded_roundtrip', 'bounded_volume', 'bounded_purity', 'bounded_plumbing']
 META = {
     'clauses': {'C08.n': 'P', 'C08.edge': 'P', 'C08.bin': 'P', 'C08.count': 'P (cell = Count over the digitised samples; total = T*N by the L-partition lemma)',
                 'C08.pre': 'P (asserts discharged from the positions contract)', 'C08.rt.real': 'P', 'C08.rt.fp': 'P under the standard FP model'},
@@ -402,3 +402,14 @@ from verif.native.purity import make_bounded as _make_purity  # noqa: E402
 from verif.props.purity_reg import REG as _PURITY_REG  # noqa: E402
 PURITY = _PURITY_REG['C08']
 bounded_purity = _make_purity('C08', PURITY)
+
+
+# plumbing around the anchored functions: forwarding contracts of the public wrappers, no state shared between calls or objects
+from verif.props import plumbing as _plumbing  # noqa: E402
+
+
+def unit_plumbing(tier):
+    return _plumbing.unit_plumbing(PROPERTY)
+
+
+bounded_plumbing = _plumbing.make_bounded(PROPERTY)
